@@ -8,6 +8,9 @@ All statements quantify over every input string (`Str = List Char`).
 -/
 import MesonModel.Lang.TopLemmas
 import MesonModel.Lang.ShapeLemmas
+import MesonModel.Lang.LexAdj
+import MesonModel.Lang.ErrPos
+import MesonModel.Lang.TernaryFlag
 import MesonModel.Lang.Sexp
 
 namespace MesonModel.Props.C02
@@ -126,21 +129,68 @@ theorem raw_roundtrip_counterexample : ¬ raw_roundtrip_full := by
 
 /-! ### totality: which exceptions can leave the parser -/
 
-/-- an outcome the property allows: a located syntax error -/
-def Err.located : Err → Bool
-  | .parse _ _ => true
-  | .block _ _ => true
-  | _ => false
+/-- `no_internal_error_full`: **for every string the model outcome is accept or a located error**
+(`ParseException` / `BlockParseException` carrying line and column). In particular the recursion fuel
+`token count + 3` never runs out (`fuel_suffices`) and the `AttributeError` path of `e4` is unreachable.
+Together with the correspondence (model = implementation on every explored input, exception class included)
+this is the property's "no internal Python error ever escapes". Proved compositionally over the parser monad
+(`Safe.lean`: every recursion happens after a token was consumed) and from the lexer adjacency lemma. -/
+theorem no_internal_error_full (s : Str) (names : List (Str × Nat)) (e : Err)
+    (h : parseWith names s = .error e) : e.isLocated = true :=
+  parse_error_located h
 
-/-- `no_internal_error`: every exception the parser model can raise is a located `ParseException` /
-`BlockParseException`, apart from the two outcomes that are not behaviours of the code on lexer output:
-`fuel` (artefact of the model's recursion bound; never produced on any of the inputs of the correspondence) and
-`notInNoWs` (the `AttributeError` of `e4` when a `not` token is immediately followed by an `in` token, which
-the lexer's identifier pattern cannot produce). Since /repo 02dfd45 (escape errors) and the `key_values` repair
-(unhashable dict key) no `UnicodeDecodeError` / `TypeError` constructor exists any more. -/
-theorem no_internal_error_partial (s : Str) (e : Err) (_h : parse s = .error e)
-    (hf : e ≠ .fuel) (hn : e ≠ .notInNoWs) : Err.located e = true := by
-  cases e <;> simp_all [Err.located]
+/-- `parser_error_located`: every error the model can raise — lexer or parser, `ParseException` or
+`BlockParseException` — carries a line that exists in the text (`line ≤ number of lines`) and a column such
+that the offset of that line plus the column does not pass the end of the text. (`lineOff s l` is the offset of
+the first character of line `l`; line `0`, used only by the BOM error `0:0`, is treated like line `1`.)
+Proved in two stages: every position the parser can report is the start or end position of a token, the
+lexer's error position, or `0:0` (`PosInv.lean`, compositional over the parser monad); the lexer's line
+bookkeeping is exact (`LexPos.lean`: `lineno = newlines consumed + 1`, `line_start = offset after the last
+newline consumed`, for every token kind incl. continuation lines, multi-line strings and newlines inside
+single-quoted strings). -/
+theorem parser_error_located (s : Str) (names : List (Str × Nat)) (e : Err)
+    (h : parseWith names s = .error e) :
+    ∃ l c, (e = .parse l c ∨ e = .block l c) ∧ l ≤ countNl s + 1 ∧ lineOff s l + c ≤ s.length := by
+  have hloc := parse_error_located h
+  have hpos := parse_error_inText h
+  cases e with
+  | parse l c => exact ⟨l, c, Or.inl rfl, hpos⟩
+  | block l c => exact ⟨l, c, Or.inr rfl, hpos⟩
+  | notInNoWs => simp [Err.isLocated] at hloc
+  | fuel => simp [Err.isLocated] at hloc
+
+/-- exact token offsets (groundwork for span exactness): the line/column of a token address its `bytespan`
+start (`offset of its line + column = bytespan[0]`), and the span is exactly as long as the token's text -/
+theorem lex_token_offsets (s : Str) : ∀ t ∈ (lex s).toks,
+    lineOff s t.lineno + t.colno = t.spanStart ∧ t.spanEnd = t.spanStart + t.text.length :=
+  MesonModel.Lang.lex_token_offsets s
+
+/-- the lexer's bookkeeping: every token starts and ends at a line/column inside the text -/
+theorem lex_token_positions (s : Str) : ∀ t ∈ (lex s).toks,
+    InText s (t.lineno, t.colno) ∧ InText s (t.lineno, t.colno + t.spanEnd - t.spanStart) :=
+  (lex_pos s).1
+
+example : lineOff "ab\ncd\n".toList 2 = 3 := by decide
+/-- the `eof` token after a multi-line string sits past the end of line 1, but inside the text -/
+example : errOf "f('''a\nb'''" = some (.block 1 11) := by decide +kernel
+
+/-- `fuel_suffices`: the model's recursion bound is never the reason for a failure -/
+theorem fuel_suffices (s : Str) (names : List (Str × Nat)) : parseWith names s ≠ .error .fuel := by
+  intro h; have := parse_error_located h; simp [Err.isLocated] at this
+
+/-- the `AttributeError` of `e4` (`temp_node.whitespaces` is `None`) cannot happen -/
+theorem not_in_attribute_error_unreachable (s : Str) (names : List (Str × Nat)) :
+    parseWith names s ≠ .error .notInNoWs := by
+  intro h; have := parse_error_located h; simp [Err.isLocated] at this
+
+/-- lexer adjacency: a `not` token is never immediately followed by an `in` token (`notin` lexes as one
+identifier), so there is always whitespace/comment/newline text between them -/
+theorem lex_not_in_separated (s : Str) : NoAdj (lex s).toks := lex_noAdj s
+
+/-- on any token list without adjacent `not`,`in`, with the default fuel -/
+theorem tokens_error_located (names : List (Str × Nat)) (lr : LexResult) (e : Err)
+    (hn : NoAdj lr.toks) (h : parseToks names lr (defaultFuel lr) = .error e) : e.isLocated = true :=
+  parseToks_located hn h
 
 /-- the former witnesses are now located errors -/
 theorem unhashable_key_located : errOf "a = {-: 1}\n" = some (.parse 1 6) := by decide +kernel
@@ -179,6 +229,18 @@ theorem arithmetic_level_kinds (stmt : P Node) (k : Nat) (st st' : PState) (n : 
   · exact Or.inl h
   · exact Or.inr (Or.inl h)
   · exact Or.inr (Or.inr h)
+
+/-- `ternary_not_nested`: while `in_ternary` is set — anywhere inside the two branches of a ternary, at any
+nesting depth, parentheses included, since the flag is global and every production restores it
+(`TernaryFlag.lean`) — `statement()` never returns a ternary node; for every fuel and every parser state -/
+theorem ternary_not_nested (n : Nat) (st st' : PState) (nd : Node)
+    (h : statement n st = .ok (nd, st')) (ht : st.inTernary = true) : nd.isTernary = false :=
+  statement_no_ternary_in_ternary n h ht
+
+/-- every production leaves the `in_ternary` flag as it found it -/
+theorem in_ternary_restored (n : Nat) (st st' : PState) (nd : Node)
+    (h : statement n st = .ok (nd, st')) : st'.inTernary = st.inTernary :=
+  (statement_pt n).elim st nd st' h
 
 example : errOf "x = a == b == c\n" = some (.parse 1 11) := by decide +kernel
 example : errOf "x = not not a\n" = some (.parse 1 12) := by decide +kernel
